@@ -38,11 +38,13 @@ Section LoopProofs.
   Variable cmp : node -> node -> comparison.
   Variable hpush : list hnode -> hnode -> list hnode.
   Variable hpop : list hnode -> option (hnode * list hnode).
-  (* the priority-queue specification *)
-  Hypothesis Hpush : forall h x, Permutation (hpush h x) (x :: h).
+  (* the priority-queue specification, relative to a representation invariant (heap order for a binary heap) *)
+  Variable Inv : list hnode -> Prop.
+  Hypothesis Hinv0 : Inv [].
+  Hypothesis Hpush : forall h x, Inv h -> Inv (hpush h x) /\ Permutation (hpush h x) (x :: h).
   Hypothesis Hpop_none : forall h, hpop h = None -> h = [].
-  Hypothesis Hpop_some : forall h x h', hpop h = Some (x, h') ->
-    Permutation h (x :: h') /\ forall y, In y h' -> n_name (fst x) <= n_name (fst y).
+  Hypothesis Hpop_some : forall h x h', Inv h -> hpop h = Some (x, h') ->
+    Inv h' /\ Permutation h (x :: h') /\ forall y, In y h' -> n_name (fst x) <= n_name (fst y).
 
   Lemma merge_nodes_nonempty rec a g : exists n0, merge_nodes cmp rec (a :: g) = Some n0.
   Proof. unfold merge_nodes. cbn [max_by]. eexists. reflexivity. Qed.
@@ -56,8 +58,10 @@ Section LoopProofs.
   Definition pushed (rc : tree) (heap : list hnode) : list hnode :=
     match rc with s :: r => (s, r) :: heap | [] => heap end.
 
-  Lemma push_next_perm rc heap : Permutation (push_next hpush rc heap) (pushed rc heap).
-  Proof. destruct rc as [|s r]; cbn [push_next pushed]; [apply Permutation_refl | apply Hpush]. Qed.
+  Lemma push_next_perm rc heap : Inv heap -> Permutation (push_next hpush rc heap) (pushed rc heap).
+  Proof. intro Hi. destruct rc as [|s r]; cbn [push_next pushed]; [apply Permutation_refl | apply Hpush; exact Hi]. Qed.
+  Lemma push_next_inv rc heap : Inv heap -> Inv (push_next hpush rc heap).
+  Proof. intro Hi. destruct rc as [|s r]; cbn [push_next]; [exact Hi | apply Hpush; exact Hi]. Qed.
 
   Lemma group_pushed x rc heap y :
     In y (group x (rc :: map tl_of heap)) <-> In y (group x (map tl_of (pushed rc heap))).
@@ -70,6 +74,7 @@ Section LoopProofs.
   Proof. destruct rc as [|s r]; cbn [pushed map]; unfold total_len; cbn [fold_right tl_of fst snd length]; lia. Qed.
 
   Lemma loop_find rec : forall fuel c rc nodes heap,
+    Inv heap ->
     sorted (c :: rc) ->
     (forall e, In e heap -> sorted (tl_of e)) ->
     (forall e, In e heap -> n_name c <= n_name (fst e)) ->
@@ -79,9 +84,10 @@ Section LoopProofs.
       find (namep x) (loop cmp hpush hpop fuel rec (c, rc) nodes heap) =
       merge_nodes cmp rec (if x =? n_name c then nodes ++ c :: g else g).
   Proof.
-    induction fuel as [|f IH]; intros c rc nodes heap Hsc Hsh Hmin Hnodes Hfuel x; [lia|].
+    induction fuel as [|f IH]; intros c rc nodes heap Hinv Hsc Hsh Hmin Hnodes Hfuel x; [lia|].
     cbn [loop fst snd].
-    pose proof (push_next_perm rc heap) as Pp1.
+    pose proof (push_next_perm rc heap Hinv) as Pp1.
+    pose proof (push_next_inv rc heap Hinv) as Hinv1.
     set (heap1 := push_next hpush rc heap) in *.
     (* facts about the pushed heap *)
     assert (forall e, In e heap1 -> sorted (tl_of e) /\ n_name c <= n_name (fst e)) as H1.
@@ -102,7 +108,7 @@ Section LoopProofs.
       destruct (merge_nodes_nonempty rec a g0) as [n0 En0]. exists n0. split; [exact En0|].
       eapply merge_nodes_named; [|exact En0]. exact Hnodes'. }
     destruct (hpop heap1) as [[[n' r'] heap2]|] eqn:Ep.
-    - destruct (Hpop_some _ _ _ Ep) as [Pp2 Hmin2]. cbn [fst] in Hmin2.
+    - destruct (Hpop_some _ _ _ Hinv1 Ep) as [Hinv2 [Pp2 Hmin2]]. cbn [fst] in Hmin2.
       assert (In (n', r') heap1) as Hin' by (eapply Permutation_in; [apply Permutation_sym; exact Pp2 | left; reflexivity]).
       destruct (H1 _ Hin') as [Hs' Hm']. cbn [fst tl_of snd] in Hs', Hm'.
       assert (forall e, In e heap2 -> sorted (tl_of e)) as Hsh2.
@@ -118,7 +124,7 @@ Section LoopProofs.
       + (* same name: collect and go on *)
         assert (n_name c = n_name n') as Enm by lia.
         assert (forall y, In y (nodes ++ [c]) -> n_name y = n_name n') as Hn2 by (intros; rewrite <- Enm; auto).
-        destruct (IH n' r' (nodes ++ [c]) heap2 Hs' Hsh2 Hmin2 Hn2 Hfuel2 x) as [g' [Hg' Hf']].
+        destruct (IH n' r' (nodes ++ [c]) heap2 Hinv2 Hs' Hsh2 Hmin2 Hn2 Hfuel2 x) as [g' [Hg' Hf']].
         exists (if x =? n_name n' then n' :: g' else g'). split.
         * eapply geq_transfer; [|apply geq_step; exact Hg']. intro y. rewrite Hgrp1, Hgrp2. reflexivity.
         * etransitivity; [exact Hf'|]. rewrite Enm. destruct (x =? n_name n'); [rewrite <- app_assoc; reflexivity | reflexivity].
@@ -135,7 +141,7 @@ Section LoopProofs.
              pose proof (sorted_all_ge _ _ y Hse Hyt). lia.
           -- rewrite N.eqb_refl. symmetry. exact En0.
         * assert (forall y, In y ([] : list node) -> n_name y = n_name n') as Hn2 by (intros y []).
-          destruct (IH n' r' [] heap2 Hs' Hsh2 Hmin2 Hn2 Hfuel2 x) as [g' [Hg' Hf']].
+          destruct (IH n' r' [] heap2 Hinv2 Hs' Hsh2 Hmin2 Hn2 Hfuel2 x) as [g' [Hg' Hf']].
           exists (if x =? n_name n' then n' :: g' else g'). split.
           -- eapply geq_transfer; [|apply geq_step; exact Hg']. intro y. rewrite Hgrp1, Hgrp2. reflexivity.
           -- etransitivity; [exact Hf'|]. assert (x =? n_name c = false) as -> by lia. cbn [app]. reflexivity.
@@ -159,6 +165,7 @@ Section LoopProofs.
 
   (* the output of the loop is strictly sorted by name and bounded below by the current name *)
   Lemma loop_sorted rec : forall fuel c rc nodes heap,
+    Inv heap ->
     sorted (c :: rc) ->
     (forall e, In e heap -> sorted (tl_of e)) ->
     (forall e, In e heap -> n_name c <= n_name (fst e)) ->
@@ -166,9 +173,10 @@ Section LoopProofs.
     sorted (loop cmp hpush hpop fuel rec (c, rc) nodes heap) /\
     forall y, In y (loop cmp hpush hpop fuel rec (c, rc) nodes heap) -> n_name c <= n_name y.
   Proof.
-    induction fuel as [|f IH]; intros c rc nodes heap Hsc Hsh Hmin Hnodes; [split; [apply sorted_nil | intros y []]|].
+    induction fuel as [|f IH]; intros c rc nodes heap Hinv Hsc Hsh Hmin Hnodes; [split; [apply sorted_nil | intros y []]|].
     cbn [loop fst snd].
-    pose proof (push_next_perm rc heap) as Pp1.
+    pose proof (push_next_perm rc heap Hinv) as Pp1.
+    pose proof (push_next_inv rc heap Hinv) as Hinv1.
     set (heap1 := push_next hpush rc heap) in *.
     assert (forall e, In e heap1 -> sorted (tl_of e) /\ n_name c <= n_name (fst e)) as H1.
     { intros e He. apply (Permutation_in _ Pp1) in He. destruct rc as [|s r]; cbn [pushed] in He.
@@ -183,7 +191,7 @@ Section LoopProofs.
       destruct (merge_nodes_nonempty rec a g0) as [n0 En0]. exists n0. split; [exact En0|].
       eapply merge_nodes_named; [|exact En0]. exact Hnodes'. }
     destruct (hpop heap1) as [[[n' r'] heap2]|] eqn:Ep.
-    - destruct (Hpop_some _ _ _ Ep) as [Pp2 Hmin2]. cbn [fst] in Hmin2.
+    - destruct (Hpop_some _ _ _ Hinv1 Ep) as [Hinv2 [Pp2 Hmin2]]. cbn [fst] in Hmin2.
       assert (In (n', r') heap1) as Hin' by (eapply Permutation_in; [apply Permutation_sym; exact Pp2 | left; reflexivity]).
       destruct (H1 _ Hin') as [Hs' Hm']. cbn [fst] in Hm'. change (tl_of (n', r')) with (n' :: r') in Hs'.
       assert (forall e, In e heap2 -> sorted (tl_of e)) as Hsh2.
@@ -192,10 +200,10 @@ Section LoopProofs.
       destruct (n_name c =? n_name n') eqn:E.
       + assert (n_name c = n_name n') as Enm by lia.
         assert (forall y, In y (nodes ++ [c]) -> n_name y = n_name n') as Hn2 by (intros; rewrite <- Enm; auto).
-        destruct (IH n' r' (nodes ++ [c]) heap2 Hs' Hsh2 Hmin2 Hn2) as [I1 I2].
+        destruct (IH n' r' (nodes ++ [c]) heap2 Hinv2 Hs' Hsh2 Hmin2 Hn2) as [I1 I2].
         split; [exact I1|]. intros y Hy. specialize (I2 y Hy). lia.
       + assert (forall y, In y ([] : list node) -> n_name y = n_name n') as Hn2 by (intros y []).
-        destruct (IH n' r' [] heap2 Hs' Hsh2 Hmin2 Hn2) as [I1 I2].
+        destruct (IH n' r' [] heap2 Hinv2 Hs' Hsh2 Hmin2 Hn2) as [I1 I2].
         unfold emit. rewrite En0. split.
         * apply sorted_cons; [|exact I1]. intros y Hy. specialize (I2 y Hy). lia.
         * intros y [<-|Hy]; [lia | specialize (I2 y Hy); lia].
@@ -203,14 +211,16 @@ Section LoopProofs.
   Qed.
 
   (* the heap filled with the first elements *)
-  Lemma first_elems_perm : forall ts h,
+  Lemma first_elems_perm : forall ts h, Inv h ->
+    Inv (first_elems hpush h ts) /\
     Permutation (map tl_of (first_elems hpush h ts)) (filter (fun t => match t with [] => false | _ => true end) ts ++ map tl_of h).
   Proof.
-    induction ts as [|t ts IH]; intro h; [apply Permutation_refl|]. cbn [first_elems filter].
+    induction ts as [|t ts IH]; intros h Hi; [split; [exact Hi | apply Permutation_refl]|]. cbn [first_elems filter].
     destruct t as [|n q].
-    - apply IH.
-    - eapply Permutation_trans; [apply IH|]. cbn [app].
-      eapply Permutation_trans; [apply Permutation_app_head; apply Permutation_map; apply Hpush|].
+    - apply IH. exact Hi.
+    - destruct (Hpush h (n, q) Hi) as [Hi' Pp]. destruct (IH _ Hi') as [I1 P1]. split; [exact I1|].
+      eapply Permutation_trans; [exact P1|]. cbn [app].
+      eapply Permutation_trans; [apply Permutation_app_head; apply Permutation_map; exact Pp|].
       cbn [map]. change (tl_of (n, q)) with (n :: q). apply Permutation_sym. apply Permutation_middle.
   Qed.
 
@@ -235,7 +245,7 @@ Section LoopProofs.
     exists g, geq g x ts /\ find (namep x) (loop_level cmp hpush hpop rec ts) = merge_nodes cmp rec g.
   Proof.
     intro Hs. rewrite Forall_forall in Hs. unfold loop_level.
-    pose proof (first_elems_perm ts []) as P0. cbn [map] in P0. rewrite app_nil_r in P0.
+    destruct (first_elems_perm ts [] Hinv0) as [Hi0 P0]. cbn [map] in P0. rewrite app_nil_r in P0.
     set (h0 := first_elems hpush [] ts) in *.
     assert (forall y, In y (group x (map tl_of h0)) <-> In y (group x ts)) as Hg0.
     { intro y. rewrite (group_perm x _ _ y P0). apply group_nonempty_filter. }
@@ -243,7 +253,7 @@ Section LoopProofs.
     { intros e He. apply Hs. assert (In (tl_of e) (map tl_of h0)) as Ht by (apply in_map; exact He).
       apply (Permutation_in _ P0) in Ht. apply filter_In in Ht. apply Ht. }
     destruct (hpop h0) as [[[c rc] h']|] eqn:Ep.
-    - destruct (Hpop_some _ _ _ Ep) as [Pp Hmin]. cbn [fst] in Hmin.
+    - destruct (Hpop_some _ _ _ Hi0 Ep) as [Hi1 [Pp Hmin]]. cbn [fst] in Hmin.
       assert (sorted (c :: rc)) as Hsc.
       { apply (Hs0 (c, rc)). eapply Permutation_in; [apply Permutation_sym; exact Pp | left; reflexivity]. }
       assert (forall e, In e h' -> sorted (tl_of e)) as Hsh.
@@ -253,7 +263,7 @@ Section LoopProofs.
         pose proof (total_len_perm _ _ P0) as Hl0. rewrite total_len_nonempty_filter in Hl0.
         change (tl_of (c, rc)) with (c :: rc) in Hl.
         unfold total_len in Hl, Hl0 |- *. cbn [fold_right length] in Hl. lia. }
-      destruct (loop_find rec (S (total_len ts)) c rc [] h' Hsc Hsh Hmin (fun y (H : In y []) => match H with end) Hfuel x) as [g [Hg Hf]].
+      destruct (loop_find rec (S (total_len ts)) c rc [] h' Hi1 Hsc Hsh Hmin (fun y (H : In y []) => match H with end) Hfuel x) as [g [Hg Hf]].
       exists (if x =? n_name c then c :: g else g). split.
       + eapply geq_transfer; [|apply geq_step; exact Hg]. intro y. rewrite <- Hg0.
         symmetry. apply (group_perm x _ _ y (Permutation_map tl_of Pp)).
@@ -265,14 +275,15 @@ Section LoopProofs.
   Lemma loop_level_sorted rec ts : Forall sorted ts -> sorted (loop_level cmp hpush hpop rec ts).
   Proof.
     intro Hs. rewrite Forall_forall in Hs. unfold loop_level.
-    pose proof (first_elems_perm ts []) as P0. cbn [map] in P0. rewrite app_nil_r in P0.
+    destruct (first_elems_perm ts [] Hinv0) as [Hi0 P0]. cbn [map] in P0. rewrite app_nil_r in P0.
     set (h0 := first_elems hpush [] ts) in *.
     assert (forall e, In e h0 -> sorted (tl_of e)) as Hs0.
     { intros e He. apply Hs. assert (In (tl_of e) (map tl_of h0)) as Ht by (apply in_map; exact He).
       apply (Permutation_in _ P0) in Ht. apply filter_In in Ht. apply Ht. }
     destruct (hpop h0) as [[[c rc] h']|] eqn:Ep; [|apply sorted_nil].
-    destruct (Hpop_some _ _ _ Ep) as [Pp Hmin]. cbn [fst] in Hmin.
+    destruct (Hpop_some _ _ _ Hi0 Ep) as [Hi1 [Pp Hmin]]. cbn [fst] in Hmin.
     apply loop_sorted.
+    - exact Hi1.
     - apply (Hs0 (c, rc)). eapply Permutation_in; [apply Permutation_sym; exact Pp | left; reflexivity].
     - intros e He. apply Hs0. eapply Permutation_in; [apply Permutation_sym; exact Pp | right; exact He].
     - exact Hmin.
@@ -398,11 +409,35 @@ Proof.
   destruct (pop_min r) as [[y r']|]; [destruct (_ <? _)|]; discriminate.
 Qed.
 
+(* the specification relative to a representation invariant *)
+Definition pq_spec_inv (Inv : list hnode -> Prop) (hpush : list hnode -> hnode -> list hnode)
+           (hpop : list hnode -> option (hnode * list hnode)) : Prop :=
+  Inv [] /\
+  (forall h x, Inv h -> Inv (hpush h x) /\ Permutation (hpush h x) (x :: h)) /\
+  (forall h, hpop h = None -> h = []) /\
+  (forall h x h', Inv h -> hpop h = Some (x, h') ->
+     Inv h' /\ Permutation h (x :: h') /\ forall y, In y h' -> n_name (fst x) <= n_name (fst y)).
+
+Lemma pq_spec_is_inv hpush hpop : pq_spec hpush hpop -> pq_spec_inv (fun _ => True) hpush hpop.
+Proof.
+  intros [H1 [H2 H3]]. split; [exact I|]. split; [intros; split; [exact I | apply H1]|]. split; [exact H2|].
+  intros h x h' _ E. split; [exact I | apply H3; exact E].
+Qed.
+
+Lemma merge_loop_sorted_inv : forall cmp Inv hpush hpop, pq_spec_inv Inv hpush hpop ->
+  forall ts, Forall (fun t => wf_tree t = true) ts -> sorted (merge_loop_gen cmp hpush hpop ts).
+Proof. intros cmp Inv hpush hpop [H0 [H1 [H2 H3]]]. apply (merge_loop_sorted_gen cmp hpush hpop Inv); assumption. Qed.
+
+Lemma merge_loop_paths_inv : forall cmp Inv hpush hpop, pq_spec_inv Inv hpush hpop -> preorder cmp ->
+  forall ts, Forall (fun t => wf_tree t = true) ts ->
+  forall p, p <> [] -> spec_at cmp ts (merge_loop_gen cmp hpush hpop ts) p.
+Proof. intros cmp Inv hpush hpop [H0 [H1 [H2 H3]]] Hp. apply (loop_paths_top cmp hpush hpop Inv); assumption. Qed.
+
 Lemma merge_loop_sorted_top : forall cmp hpush hpop, pq_spec hpush hpop ->
   forall ts, Forall (fun t => wf_tree t = true) ts -> sorted (merge_loop_gen cmp hpush hpop ts).
-Proof. intros cmp hpush hpop [H1 [H2 H3]]. apply merge_loop_sorted_gen; assumption. Qed.
+Proof. intros cmp hpush hpop H. apply (merge_loop_sorted_inv cmp _ _ _ (pq_spec_is_inv _ _ H)). Qed.
 
 Lemma merge_loop_paths_top : forall cmp hpush hpop, pq_spec hpush hpop -> preorder cmp ->
   forall ts, Forall (fun t => wf_tree t = true) ts ->
   forall p, p <> [] -> spec_at cmp ts (merge_loop_gen cmp hpush hpop ts) p.
-Proof. intros cmp hpush hpop [H1 [H2 H3]] Hp. apply loop_paths_top; assumption. Qed.
+Proof. intros cmp hpush hpop H. apply (merge_loop_paths_inv cmp _ _ _ (pq_spec_is_inv _ _ H)). Qed.
